@@ -1,6 +1,6 @@
 (* Runner entry points: one number per executable model function.  The Python
    harness reads the "(* ENTRY n name *)" comments to build its name table. *)
-From HX Require Import Model.Base Model.Cell Model.EmitterEntry Model.Serial Model.DateFns Model.Comparator Model.Value Model.Logic.
+From HX Require Import Model.Base Model.Cell Model.EmitterEntry Model.Serial Model.DateFns Model.Comparator Model.Value Model.Logic Model.Lookup.
 
 Definition dispatch (e : Z) (a : list Z) : list Z :=
   match e with
@@ -21,5 +21,8 @@ Definition dispatch (e : Z) (a : list Z) : list Z :=
   | 1407 => e_serial_fields a (* ENTRY 1407 serial_fields *)
   | 701 => e_compare a      (* ENTRY 701 compare *)
   | 1201 => e_logic a       (* ENTRY 1201 logic *)
+  | 1801 => e_CHOOSE a      (* ENTRY 1801 CHOOSE *)
+  | 1802 => e_INDEX a       (* ENTRY 1802 INDEX *)
+  | 1803 => e_MATCH a       (* ENTRY 1803 MATCH *)
   | _ => [-999]
   end.
